@@ -73,7 +73,7 @@ for mod, tree in trees.items():
     for d in enumerate_defs(mod, tree):
         if d.kind in ("module", "method") and len(d.node.body) >= 2:
             bodies[d.qual] = _body_sig(d.node)
-        if d.kind in ("module", "method"):
+        if d.kind in ("module", "method", "nested"):
             # the normalised source of every function of the reference tree: used only to *recognise* a function that was renamed, moved, turned
             # from a method into a function or written out at its call sites (sigstat/restore.py unifies the current code with it)
             sources[d.qual] = {"class": d.cls.name if d.cls is not None else None, "src": ast.unparse(d.node)}
